@@ -12,9 +12,10 @@ static const char *verify_tool;
 
 typedef struct { uint64_t lo, hi; size_t first_entry, n_entries; int is_index; } region_t;  /* [lo,hi) = crc field + stored bytes */
 
+static int g_env_mode;   /* MTBL_READER_MADVISE_RANDOM for the next observation: 0 unset, 1 "0", 2 "1" */
 static int run_verify_tool(const char *path, char *out, size_t outsz)
 {
-	char cmd[8300]; snprintf(cmd, sizeof cmd, "%s %s 2>/dev/null", verify_tool, path);
+	char cmd[8400]; snprintf(cmd, sizeof cmd, "%s%s %s 2>/dev/null", g_env_mode == 0 ? "" : g_env_mode == 1 ? "MTBL_READER_MADVISE_RANDOM=0 " : "MTBL_READER_MADVISE_RANDOM=1 ", verify_tool, path);
 	FILE *p = popen(cmd, "r");
 	if (!p) return -2;
 	size_t n = fread(out, 1, outsz - 1, p); out[n] = 0;
@@ -34,6 +35,7 @@ static long reader_child(const char *path, int mode, const model_t *m, size_t st
 	if (pid == 0) {
 		close(pf[0]);
 		alarm(60);                     /* watchdog for a child that spins without emitting */
+		if (g_env_mode) setenv("MTBL_READER_MADVISE_RANDOM", g_env_mode == 1 ? "0" : "1", 1); else unsetenv("MTBL_READER_MADVISE_RANDOM");
 		int nfd = open("/dev/null", O_WRONLY); dup2(nfd, 2);
 		struct mtbl_reader_options *ro = mtbl_reader_options_init();
 		mtbl_reader_options_set_verify_checksums(ro, true);
@@ -82,6 +84,8 @@ static void observe_fault(const char *path, int fd, const model_t *m, const regi
 			  const char *cls, int use_tool, int mode, rng_t *r)
 {
 	apply_fault(fd, f);
+	g_env_mode = (int)((f->bit[0] / 3) % 4); if (g_env_mode == 3) g_env_mode = 0;      /* half of the observations with the madvise environment override set */
+	statf(1, "faults.env_madvise.%s", g_env_mode == 0 ? "unset" : g_env_mode == 1 ? "0" : "1");
 	const char *role = role_of(rg, bi, nblocks);
 	char desc[160]; snprintf(desc, sizeof desc, "%s fault (%d bit(s), first at file bit %" PRIu64 ") in %s block %zu", cls, f->n, f->bit[0], role, bi);
 	if (use_tool) {
@@ -236,6 +240,7 @@ static void case_intact(const args_t *a, long c, rng_t *r)
 	wcfg_t cfg; model_t m; char path[4096];
 	snprintf(path, sizeof path, "%s/c12i-%ld.mtbl", a->workdir, c);
 	make_file(a, r, c, &cfg, &m, path, c % 5 == 0);
+	g_env_mode = (int)(c % 3);
 	char out[1024]; int st = run_verify_tool(path, out, sizeof out);
 	char want[4200]; snprintf(want, sizeof want, "%s: OK", path);
 	if (!strstr(out, want) || st != 0) viol("C12/intact-file-fails-verify", "mtbl_verify on an intact written file: status %d, output '%.100s' (%s, %zu entries)", st, out, wcfg_str(&cfg), m.n);
